@@ -28,6 +28,9 @@ pub fn generate_scenario(property: &str, seed: u64, run: u64, thorough: bool) ->
     if Rng::for_run(seed, &format!("scenario-ctx-{property}"), run).chance(0.3) {
         entity_types.push("CTX".to_string());
     }
+    if property != "C20" && Rng::for_run(seed, &format!("scenario-cbtx-{property}"), run).chance(0.15) {
+        entity_types.push("CBTX".to_string());
+    }
     let fault_free = rng.chance(0.2);
     let mut f = Faults::default();
     if !fault_free {
@@ -259,7 +262,7 @@ impl Driver {
         if self.since_epoch >= self.epoch_len && self.epochs_done < w.sc.epochs && ((all_registered && epoch_certified) || (!fault_free && self.since_epoch >= 3 * self.epoch_len)) {
             choices.push((25, 5));
         }
-        if w.sc.entity_types.iter().any(|t| t == "CDB" || t == "CTX") {
+        if w.sc.entity_types.iter().any(|t| t == "CDB" || t == "CTX" || t == "CBTX") {
             choices.push((3, 6));
         }
         let w100 = |p: f64| (p * 100.0).round() as u32;
@@ -374,7 +377,7 @@ impl Driver {
         {
             choices.push((25, 6));
         }
-        if w.sc.entity_types.iter().any(|t| t == "CDB" || t == "CTX") {
+        if w.sc.entity_types.iter().any(|t| t == "CDB" || t == "CTX" || t == "CBTX") {
             choices.push((3, 7));
         }
         let w100 = |p: f64| (p * 100.0).round() as u32;
